@@ -1,6 +1,7 @@
 #!/usr/bin/env bash
 # Runs every registered check (quick tier by default) on the current tree and prints one line per check.
 cd /verif
+exec 8>/var/tmp/verif-repo.lock; flock 8   # one user of /repo's working tree at a time (mutants.py, seeded.sh)
 TIER="${1:-quick}"
 rc_all=0
 for id in $(python3 -c "import json;print(' '.join(c['property_id'] for c in json.load(open('/verif/MANIFEST.json'))['checks']))"); do
